@@ -540,6 +540,59 @@ def unbounded_case(ctx):
                 _unbounded_one(ctx, mode, kind, single)
 
 
+def reference_case(ctx):
+    """directed: the failing cell is what a cell whose whole formula is a reference (=OFFSET(A1,0,0), =INDIRECT("A1"))
+    shows; a reader of that cell, the retries and the repair"""
+    install()
+    for mode in ('plain', 'iterative'):
+        for kind in ('nosuch', 'failk-always'):
+            for ref in ('=OFFSET(A1,0,0)', '=INDIRECT("A1")'):
+                bad = '=NOSUCH(1)' if kind == 'nosuch' else '=FAILK("r",0,1)'
+                spec = {'sheets': [['Sheet1', {'A1': bad, 'B1': ref, 'C1': '=B1+1', 'D1': '=E1*2', 'E1': 5}]],
+                        'names': {}, 'arrays': [],
+                        'calc': {'iterate': True, 'count': 50, 'delta': 1e-6} if mode == 'iterative' else None}
+                case = {'kind': 'reference-cell', 'mode': mode, 'fault': kind, 'ref': ref}
+                comp = wb.compile_mem(spec, plugins='vp.plugins')
+                plugins.reset()
+                ctx.count('cases')
+                ctx.count('directed:failing-cell-under-reference-valued-cell')
+                ctx.case(('reference-cell', mode, kind, ref))
+                key = f'{mode}/{kind}/under-reference-valued-cell'
+                r = call(comp.evaluate, 'Sheet1!C1')
+                if r[0] != 'pycel':
+                    ctx.violation(f'first-failure-is-not-a-pycel-error/{key}', f'evaluate(C1) gives {r!r} ({ref})', case)
+                    continue
+                ctx.count('faults_raised')
+                ok = True
+                for target in ('Sheet1!B1', 'Sheet1!C1', 'Sheet1!A1', 'Sheet1!B1'):
+                    r = call(comp.evaluate, target)
+                    ctx.count('retries')
+                    if r[0] != 'pycel':
+                        ctx.violation(('retry-returns-a-value/' if r[0] == 'v' else 'retry-raises-a-bare-exception/') +
+                                      key, f'retry evaluate({target!r}) gives {r!r}; B1 is {ref} and A1 fails', case)
+                        ok = False
+                        break
+                if not ok:
+                    continue
+                r = call(comp.evaluate, 'Sheet1!D1')
+                ctx.count('unrelated_compares')
+                if r != ('v', 10):
+                    ctx.violation(f'unrelated-cell-differs/{key}', f'evaluate(D1) = {r!r}, expected 10', case)
+                    continue
+                comp.set_value('Sheet1!A1', 2)
+                ctx.count('repairs')
+                if ref.startswith('=INDIRECT') and mode == 'plain':
+                    # (a reference given as text is no precedent in pycel's graph: B1 is only followed when iterating)
+                    continue
+                for target, want in (('Sheet1!B1', 2), ('Sheet1!C1', 3)):
+                    r = call(comp.evaluate, target)
+                    ctx.count('repair_compares')
+                    if r != ('v', want):
+                        ctx.violation(f'after-repair-differs/dependant/{key}',
+                                      f'after set_value(A1, 2) evaluate({target!r}) = {r!r}, expected {want} ({ref})', case)
+                        break
+
+
 def _unbounded_one(ctx, mode, kind, single):
     bad_formula = '=NOSUCH(1)' if kind == 'nosuch' else '=FAILK("u",0,1)'
     src = {'A1': bad_formula, 'B1': 5} if single else {'A1': 1, 'A2': bad_formula, 'A3': 3, 'B1': 5, 'B2': 6}
@@ -590,6 +643,7 @@ def run(ctx):
     if ctx.shard == 0:
         unbounded_case(ctx)
         same_value_case(ctx)
+        reference_case(ctx)
     # faults injected into the workbooks shipped with the repository
     realbooks.run_cases(ctx, realbooks.c09_case, realbooks.acyclic_books(), 10 if ctx.quick else 100, fraction=0.25)
     i = j = 0
@@ -613,6 +667,9 @@ def run(ctx):
 
 
 def replay(ctx, case):
+    if case.get('kind') == 'reference-cell':
+        reference_case(ctx)
+        return
     if case.get('kind') == 'same-value':
         same_value_case(ctx)
         return
